@@ -24,6 +24,7 @@ def check(run):
     p = run.prog
     run.attempt(chain, run, p)
     run.attempt(dkeys, run, p)
+    run.attempt(locate, run, p)
     run.attempt(types, run, p)
     run.attempt(isolang, run, p)
     run.attempt(precedence, run, p)
@@ -180,6 +181,50 @@ def process_dialect_eval(p, dialect):
     except (Unsupported, Raised) as e:
         raise AnalysisError('process_dialect is not evaluable on %r: %s' % (dialect, e))
     return {k: v for k, v in o.attrs.items() if k not in ('_dialect', 'errors', 'warnings', '_verbosity', 'name')}
+
+
+def locate(run, p):
+    import json
+    import posixpath
+    from ..pyeval import Interp, Obj, Unsupported, Raised, FakeFS
+    run.rule('C16-LOCATE', 'the data file named by the metadata is found however the metadata file itself is addressed: CSVWMetadata.read '
+                           'followed by get_url, evaluated on an in-memory file system with the metadata given by absolute path, by a path '
+                           'relative to the current directory and by its bare file name, resolves the table url against the directory of '
+                           'the metadata file')
+    c = p.cls('CSVWMetadata')
+    rd, gu = c.methods['read'], c.methods['get_url']
+    meta = json.dumps({'@context': 'http://www.w3.org/ns/csvw', 'url': 'data.csv', 'tableSchema': {'columns': []}})
+    n = 0
+    for cwd, spec in (('/work/here', '/data/set/meta.json'), ('/data', 'set/meta.json'), ('/data/set', 'meta.json'), ('/data/set', './meta.json'),
+                      ('/data/set/sub', '../meta.json')):
+        fs = FakeFS({'/data/set/meta.json': meta, '/data/set/data.csv': 'a\n1\n'})
+        os_ = fs.os(cwd=cwd)
+        real_open = fs.open
+
+        def open_rel(path, mode='r', *a, cwd=cwd, **k):
+            return real_open(posixpath.normpath(posixpath.join(cwd, path)), mode, *a, **k)
+        open_rel._pyeval_model = True
+        o = Obj(c)
+        o.attrs.update(errors=[], warnings=[], _verbosity=0, _table=None)
+        I = Interp(p)
+        I.extra_names.update({'os': os_, 'open': open_rel})
+
+        def hook(m, args, kwargs, selfobj):
+            if m.name in ('warn', 'error'):
+                return True, None
+            return False, None
+        I.on_call = hook
+        try:
+            I.call(rd, [spec], selfobj=o)
+            I.call(gu, [], selfobj=o)
+        except (Unsupported, Raised) as e:
+            raise AnalysisError('CSVWMetadata.read / get_url is not evaluable: %s' % e)
+        n += 1
+        got = o.attrs.get('_fullpath')
+        got_n = posixpath.normpath(posixpath.join(cwd, got)) if got else got
+        run.ob('C16-LOCATE', '%s::%s::%s' % (rd.rel, rd.short, spec), got_n == '/data/set/data.csv',
+               'metadata addressed as %s from %s: the data file is looked for at %r' % (spec, cwd, got), fn=rd)
+    run.floor('C16-LOCATE', n, 5)
 
 
 def dkeys(run, p):
